@@ -100,10 +100,14 @@ def numbers_rule(rep, prog, cfg):
             if t["k"] == "call":
                 for a in [t["func"]] + t["args"]:
                     c = op_const(a)
-                    if c is not None and "fn" in c and norm(c["fn"]["name"]) == "core::str::<impl str>::parse":
-                        parse_seen = True
+                    if c is not None and "fn" in c:
+                        fnn = norm(c["fn"]["name"])
+                        # str::parse, or nom's own overflow-checked streaming integer parsers
+                        if fnn == "core::str::<impl str>::parse" or (fnn.startswith("nom::character::streaming::") and
+                                                                      fnn.rsplit("::", 1)[-1] in ("u8", "u16", "u32", "u64", "u128", "i8", "i16", "i32", "i64", "i128")):
+                            parse_seen = True
     rep.check(parse_seen, rule, cfg + "/numbers via str::parse", "parser.rs",
-              "the line parser no longer converts numbers with str::parse (idiom unknown: failing closed)", detail={"parser_bodies": n_bodies})
+              "the line parser no longer converts numbers with str::parse or nom's overflow-checked integer parsers (idiom unknown: failing closed)", detail={"parser_bodies": n_bodies})
     rep.floor(rule, cfg + "/parser bodies", n_bodies, 10)
 
 
